@@ -200,6 +200,24 @@ def run_sequence(col, r, root, mode, nreq, seqno):
     cls, b, l, rm, info, waste = valid_triple(gen)
     if cls is None:
         return
+    if r.random() < 0.2:
+        # remote = base up to the JSON TYPE of some numbers / booleans in metadata (true vs 1, 2 vs 2.0): documents that
+        # Python's == calls equal and JSON does not
+        rm = json.loads(json.dumps(b))
+        tw = {True: 1, False: 0}
+        spots = [rm["metadata"]] + [c["metadata"] for c in rm["cells"]]
+        for md in spots:
+            md["typed"] = r.choice([True, 1, 1.0, 0, False, 2])
+        b = json.loads(json.dumps(rm))
+        changed = 0
+        for md in [b["metadata"]] + [c["metadata"] for c in b["cells"]]:
+            v = md["typed"]
+            if r.random() < 0.7:
+                md["typed"] = (int(v) if isinstance(v, bool) else (float(v) if isinstance(v, int) else (bool(v) if v in (0.0, 1.0) else int(v))))
+                changed += 1
+        if changed:
+            cls = "type-only"
+            col.count("sessions_with_type_only_difference_base_remote")
     case = os.path.join(root, "case")
     decoy = os.path.join(root, "decoy-outside")
     shutil.rmtree(case, ignore_errors=True)
